@@ -1,4 +1,106 @@
 package gvc
 
-// expandStructural turns structural directives (fields_copied ...) into per-field clauses.
-func (w *World) expandStructural() {}
+import (
+	"fmt"
+	"go/types"
+)
+
+// expandStructural turns structural directives into per-field clauses, generated from go/types so that
+// a field added to the struct later gets its own obligation automatically.
+//
+//	fields_copied (*T).DeepCopy [Cnn]
+//
+// expands to, for receiver r and every field F of T (unless listed by skipfield):
+//
+//	ensures (result == nil) == (r == nil)
+//	ensures r != nil ==> eqv(result.F, r.F)          -- detail "field:F"
+//
+// where eqv is == for scalars, and "same value, or a recorded deep copy of it" (ghost fact iscopy) for
+// pointers, slices and maps. Callers additionally get the derived clause iscopy(result, r): it is the
+// definition of the fact (a value returned by a function whose per-field obligations are all checked).
+func (w *World) expandStructural() {
+	if w.expanded {
+		return
+	}
+	w.expanded = true
+	for _, fc := range w.C.FCopied {
+		fn := w.P.Funcs[fc.Func]
+		c := w.C.Funcs[fc.Func]
+		if c == nil {
+			c = &FuncContract{Name: fc.Func, Pkg: fc.Pkg, File: fc.File, Line: fc.Line, Nilable: map[string]bool{}, Tags: map[string]bool{}}
+			w.C.Funcs[fc.Func] = c
+		}
+		for _, t := range fc.Tags {
+			c.Tags[t] = true
+		}
+		if fn == nil {
+			continue // reported as contract-binding failure by the check
+		}
+		if len(fn.Params) == 0 {
+			continue
+		}
+		recv := fn.Params[0]
+		c.Nilable[recv.Name()] = true
+		c.Nilable["result"] = true
+		st, ok := structOf(deref(recv.Type()))
+		if !ok {
+			continue
+		}
+		c.NoSafety = true
+		c.Pure, c.Allocates, c.HasMod = true, true, true
+		r := &EIdent{recv.Name()}
+		res := &EIdent{"result"}
+		add := func(e Expr, detail string, derived bool) {
+			cl := &Clause{Kind: "ensures", Expr: e, Text: e.String(), Tags: fc.Tags, File: fc.File, Line: fc.Line, Index: len(c.Ensures) + 1, Derived: derived, Detail: detail}
+			c.Ensures = append(c.Ensures, cl)
+		}
+		add(&EBinary{"<==>", &EBinary{"==", res, &ENil{}}, &EBinary{"==", r, &ENil{}}}, "nil-iff-nil", false)
+		for i := 0; i < st.NumFields(); i++ {
+			f := st.Field(i)
+			if _, skip := fc.Skip[f.Name()]; skip {
+				continue
+			}
+			a, b := &EField{res, f.Name()}, &EField{r, f.Name()}
+			e := eqvExpr(a, b, f.Type())
+			add(&EBinary{"==>", &EBinary{"!=", r, &ENil{}}, e}, "field:"+f.Name(), false)
+		}
+		add(&EBinary{"==>", &EBinary{"!=", r, &ENil{}}, &ECall{"iscopy", []Expr{res, r}}}, "iscopy", true)
+	}
+}
+
+func eqvExpr(a, b Expr, t types.Type) Expr {
+	switch u := t.Underlying().(type) {
+	case *types.Basic:
+		return &EBinary{"==", a, b}
+	case *types.Struct:
+		var out Expr
+		for i := 0; i < u.NumFields(); i++ {
+			f := u.Field(i)
+			e := eqvExpr(&EField{a, f.Name()}, &EField{b, f.Name()}, f.Type())
+			if out == nil {
+				out = e
+			} else {
+				out = &EBinary{"&&", out, e}
+			}
+		}
+		if out == nil {
+			return &EBool{true}
+		}
+		return out
+	case *types.Slice, *types.Pointer, *types.Map:
+		// same value, or a recorded deep copy (the callee's contract says what a copy preserves)
+		return &EBinary{"||", &EBinary{"==", a, b}, &ECall{"iscopy", []Expr{a, b}}}
+	}
+	return &EBinary{"==", a, b}
+}
+
+// iscopyKey: the ghost fact "x is a recorded deep copy of y" for values of type t.
+func (vc *VC) iscopyKey(t types.Type) string {
+	key := "G:iscopy$" + shortType(t)
+	if _, ok := vc.keyMetas[key]; !ok {
+		vc.keyMetas[key] = keyMeta{Sort: "(Array Int (Array Int Bool))", Mono: true, Arity: 2, Ghost: true}
+	}
+	return key
+}
+
+var _ = fmt.Sprint
